@@ -422,9 +422,10 @@ def run_injected(rng, out, orc, known, nmax, fixed_n=None, fixed_mode=None, ssee
                 continue
             if not same(a, r):
                 w2 = {**wit, "route": croute, "probe": p_i, "got": a, "fresh": r, "fired_in": stack[:4], "who": "linked variant"}
-                if stack and stack[0] in ("_update", "_register", "unregister", "_set"):
-                    # between the change of the definitions and the rebuild of the function, or between the rebuild
-                    # of the function and that of its variant: the few instructions of finding D34
+                if "_compile" not in stack:
+                    # outside every `_compile`: between the change of the definitions and the rebuild of the function,
+                    # or between the rebuild of the function and that of its variant (the prologue of the variant's
+                    # `compile` included): the few instructions of finding D34, same criterion as for the function
                     known(o, "D34:interrupt-between-change-and-rebuild", w2)
                 else:
                     o["viol"].append({"law": "an interrupt during the rebuild of a function left its linked variant dispatching over the previous method set", **w2})
